@@ -570,6 +570,8 @@ def run(chk):
     chk.guard(variants.apply, chk, "C07-R6", [("irispie.simultaneous._simulate", "Inlay.simulate")])
     from .. import unused as _unused
     chk.guard(_unused.apply, chk, "C07-R91")
+    from . import c01 as _c01
+    chk.guard(_c01.rule_r11, chk, rid="C07-R10")
     from .. import basis as _basis
     chk.guard(_basis.apply, chk, "C07-R9")
     from .. import endpoints as _endpoints
